@@ -23,18 +23,23 @@ class BaseCheck:
         return []
 
     def search(self, failures, stats):
-        """failing-input search on the implementation: cases attached to broken ties first, then the generator stream"""
-        seen = 0
-        for f in failures:
-            if f.case is not None:
-                v = self.oracle(f.case)
-                seen += 1
-                if v is not None:
-                    return v
-        for case in self.search_cases():
+        """failing-input search on the implementation: cases attached to broken ties first, then the generator stream.
+        Violations that match an open known finding are remembered (self.known_hits) and the search continues."""
+        known = [k for k in core.load_known() if k.get("property") == self.id and k.get("status") == "open"]
+        self.known_hits = []
+
+        def is_known(v):
+            for k in known:
+                if k.get("clause") == v.clause and (k.get("input_class") is None or k.get("input_class") == (v.case or {}).get("input_class")):
+                    if k not in self.known_hits:
+                        self.known_hits.append(k)
+                    return True
+            return False
+
+        cases = [f.case for f in failures if f.case is not None]
+        for case in list(cases) + list(self.search_cases()):
             v = self.oracle(case)
-            seen += 1
-            if v is not None:
+            if v is not None and not is_known(v):
                 return v
         return None
 
